@@ -125,6 +125,16 @@ func GenerateUnit(w *World, sp *FuncSpec, opts UnitOpts) (res *UnitResult) {
 	res.Hash, res.SSAInstrs = w.SourceHash(fn)
 	x := NewExec(w, fn, sp)
 	x.unitName = res.Name
+	x.inlineOnly = map[string]bool{}
+	if sp != nil {
+		for _, n := range sp.InlineCallees {
+			for k, f := range w.Specs.Funcs {
+				if f.Name == n {
+					x.inlineOnly[k] = true
+				}
+			}
+		}
+	}
 	x.checkLocks = opts.CheckLocks
 	x.checkFrames = opts.CheckFrames
 	x.noOverflow = !opts.Overflow
